@@ -126,6 +126,7 @@ type Fault struct {
 
 // Plan is shared by all gates of one run.
 type Plan struct {
+	effMu    sync.Mutex // see effect()
 	mu       sync.Mutex
 	calls    int // global lower-layer call counter
 	Faults   []*Fault
@@ -190,6 +191,17 @@ func (p *Plan) Freeze() {
 	p.mu.Lock()
 	p.frozen = true
 	p.mu.Unlock()
+}
+
+// effect serialises [effect + log line] of lower-layer calls over all gates of a plan, so that the order of the log
+// is the order in which the effects became visible (a reader on another goroutine can only observe an effect whose
+// log line has been written). Usage: defer p.effect()() right before the effect.
+func (p *Plan) effect() func() {
+	if p == nil {
+		return func() {}
+	}
+	p.effMu.Lock()
+	return p.effMu.Unlock
 }
 
 // Rearm makes a fault fire again at its N-th matching call from now on.
